@@ -316,7 +316,19 @@ def run_shard(shard):
                     ('name', ['fmt=html-quote', 'html_quote']),
                     ('name', []), ('expr', []), ('epfs', []),
                     ('name', ['size=10000']), ('name', ['fmt="%s"']),
-                    ('epfs:s', ['html_quote'])):
+                    ('epfs:s', ['html_quote']),
+                    # formats that leave the text as it is, with html_quote
+                    ('name', ['fmt="%s"', 'html_quote']),
+                    ('expr', ['html_quote', 'fmt="%s"']),
+                    ('ssi', ['fmt="%s"', 'html_quote']),
+                    ('epfs:s', ['fmt="%s"', 'html_quote']),
+                    ('epfs', ['fmt="%s"', 'html_quote']),
+                    ('name', ['fmt="%s"', 'html_quote', 'size=10000']),
+                    ('name', ['fmt="%s"', 'html_quote', 'null=n']),
+                    ('name', ['fmt="%s"', 'fmt=html-quote'][:1] +
+                     ['html_quote', 'missing=m']),
+                    ('name', ['fmt="%.9999s"', 'html_quote']),
+                    ('name', ['fmt="%0s"', 'html_quote'])):
                 check_once(acc, form, opts, v)
     return acc.result()
 
